@@ -294,6 +294,106 @@ def concrete_check(spec, vals, w=None):
     return dict(base, what=c.out[0][0], observed="; ".join(d for d, _ in c.out[:3]) + "\n got  %r" % got, expected="inlining with modes in increasing order:\n want %r" % want)
 
 
+# ----------------------------------------------------------------------------- concrete multi-step sequences
+INC_A = "name inc\nversion 1.0\n\nSgate(0.5) | 0\nBSgate(0.25) | [0, 1]\n"
+INC_B = "name inc\nversion 1.0\n\nRgate(1.5) | 1\nVac | 0\nCZgate | [1, 0]\n"
+INC_3 = "name inc\nversion 1.0\n\nG | [2, 0, 1]\n"
+TPL_1 = "name tpl\nversion 1.0\n\nDgate({alpha}) | 0\n"
+TPL_2 = "name tpl\nversion 1.0\n\nDgate({alpha}, {beta}) | 0\n"
+MAIN_INC = 'name main\nversion 1.0\ninclude "inc.xbb"\n\ninc | [4, 9]\nVac | 2\n'
+MAIN_LIB = 'name main\nversion 1.0\ninclude "lib/inc.xbb"\n\ninc | [9, 4]\n'
+MAIN_TPL = 'name main\nversion 1.0\ninclude "tpl.xbb"\n\ntpl(alpha=0.3) | 5\n'
+# steps: ('write', relpath, text) ('chdir', reldir) ('load', path relative to the current directory or 'abs:'+relpath)
+SEQUENCES = {
+    "two_projects_same_relative_layout": [("write", "p1/inc.xbb", INC_A), ("write", "p1/main.xbb", MAIN_INC), ("write", "p2/inc.xbb", INC_B), ("write", "p2/main.xbb", MAIN_INC),
+                                          ("chdir", "p1"), ("load", "main.xbb"), ("chdir", "p2"), ("load", "main.xbb"), ("chdir", "p1"), ("load", "main.xbb")],
+    "two_projects_nested_dirs": [("write", "p1/lib/inc.xbb", INC_A), ("write", "p1/main.xbb", MAIN_LIB), ("write", "p2/lib/inc.xbb", INC_B), ("write", "p2/main.xbb", MAIN_LIB),
+                                 ("chdir", "p1"), ("load", "main.xbb"), ("chdir", "p2"), ("load", "main.xbb"), ("chdir", "."), ("load", "p1/main.xbb"), ("load", "abs:p2/main.xbb")],
+    "include_rewritten_between_loads": [("write", "inc.xbb", INC_A), ("write", "main.xbb", MAIN_INC), ("chdir", "."), ("load", "abs:main.xbb"), ("write", "inc.xbb", INC_B),
+                                        ("load", "abs:main.xbb"), ("load", "main.xbb")],
+    "arity_changes_between_loads": [("write", "inc.xbb", INC_A), ("write", "main.xbb", MAIN_INC), ("chdir", "."), ("load", "main.xbb"), ("write", "inc.xbb", INC_3), ("load", "main.xbb"),
+                                    ("write", "inc.xbb", INC_B), ("load", "main.xbb")],
+    "template_keywords_change_between_loads": [("write", "tpl.xbb", TPL_1), ("write", "main.xbb", MAIN_TPL), ("chdir", "."), ("load", "main.xbb"), ("write", "tpl.xbb", TPL_2), ("load", "main.xbb"),
+                                               ("write", "tpl.xbb", TPL_1), ("load", "abs:main.xbb")],
+}
+
+
+def sequence_case(name, w=None):
+    """every load of the sequence (one process, working directory changing) vs the reference on the files as they are then"""
+    import blackbird
+    import blackbird.auxiliary as aux
+    from ..atnsmt import lang as langmod
+    lg = (w or {}).get("lang") or langmod.Lang()
+    root = tempfile.mkdtemp(prefix="bbverif_c07seq_")
+    old = os.getcwd()
+    files = {}
+    lv = skel.Leaves(values=[])
+    nload = 0
+    try:
+        for st in SEQUENCES[name]:
+            if st[0] == "write":
+                files[st[1]] = st[2]
+                write_tree({st[1]: st[2]}, root)
+            elif st[0] == "chdir":
+                os.chdir(os.path.join(root, st[1]))
+            else:
+                nload += 1
+                path = st[1]
+                if path.startswith("abs:"):
+                    rel = path[4:]
+                    arg = os.path.join(root, rel)
+                else:
+                    rel = os.path.normpath(os.path.relpath(os.path.join(os.getcwd(), path), root))
+                    arg = path
+                toks = lg.real_tokens_pos(files[rel])
+                cases = RI.run_all(lambda forks: RI.Interp(toks, T.PyAlg, lv.leaf, False, params=None, files=provider(files, lg, rel)))
+                routcome = cases[0][1]
+                aux._VAR.clear()
+                aux._PARAMS.clear()
+                exc = ip = None
+                try:
+                    ip = blackbird.load(arg)
+                except Exception as e:  # noqa
+                    exc = e
+                base = {"text": "sequence %s, load number %d: load(%r) with cwd %s" % (name, nload, arg, os.path.relpath(os.getcwd(), root)), "values": [name]}
+                if routcome[0] == "reject":
+                    if exc is None:
+                        return dict(base, what="a program is returned although the call must be refused (%s)" % routcome[1].kind,
+                                    observed=repr([(o["op"], o["modes"]) for o in ip.operations]), expected="an exception")
+                    continue
+                if exc is not None:
+                    return dict(base, what="raises %s" % type(exc).__name__, observed="%s: %s" % (type(exc).__name__, str(exc)[:200]), expected="the inlined program")
+                c = _cmp.Cmp(False, cases[0][2].symfactory)
+                c.program(ip, routcome[1], ("meta", "ops", "modes"))
+                if c.out:
+                    return dict(base, what=c.out[0][0], observed="; ".join(d for d, _ in c.out[:3]) + " got %r" % [(o["op"], o["modes"]) for o in ip.operations],
+                                expected="%r" % [(o["op"], o["modes"]) for o in routcome[1].operations])
+        return None
+    finally:
+        os.chdir(old)
+        shutil.rmtree(root, ignore_errors=True)
+
+
+def run_sequence(name):
+    out = {"spec": ("seq", name), "result": "holds", "paths": 1, "stats": None, "funcs": [], "reach": 1, "validated": len([s for s in SEQUENCES[name] if s[0] == "load"]),
+           "text": "concrete sequence %s" % name, "name": "sequence " + name}
+    r = sequence_case(name)
+    if r:
+        r["symbolic_what"] = r["what"]
+        out.update(result="violation", cex=r)
+    return out
+
+
+REPLAY_SEQ = '''#!/usr/bin/env python
+import sys; sys.path.insert(0, %(root)r)
+from bbverif.checks import c07
+r = c07.sequence_case(%(name)r)
+if r is None:
+    print("every load as inlined"); sys.exit(0)
+print(r["text"]); print("what    :", r["what"]); print("observed:", r["observed"]); print("expected:", r["expected"]); sys.exit(1)
+'''
+
+
 REPLAY = '''#!/usr/bin/env python
 # C07 replay: writes the files to a scratch directory, chdirs as described, loads the main script with the real
 # blackbird.load and compares with the reference inlining.
@@ -318,7 +418,7 @@ def gen_specs(tier, seed):
 
 
 def finding_key(r):
-    return r["spec"][0] + ": " + _script.default_key(r)
+    return str(r["spec"][0]) + (":" + r["spec"][1] if r["spec"][0] == "seq" else "") + ": " + _script.default_key(r)
 
 
 def main():
@@ -330,12 +430,14 @@ def main():
     rep.assumptions = [
         "files are real files in a scratch directory; the process working directory is an unrelated directory (or the main file's), path resolution is observed, not solved",
         "modes of one included file are pairwise distinct (precondition); the reference forks on their increasing order",
+        "multi-step sequences (two projects with the same relative layout loaded after chdir, include files rewritten between loads) are concrete runs in one process",
         "symbolic modes have a constant hash: a Python set of them iterates in insertion order, which stands for 'some order other than increasing'",
     ]
     specs = gen_specs(t, common.seed())
-    results = U.run_parallel(run_spec, specs)
+    results = U.run_parallel(run_spec, specs) + [run_sequence(n) for n in SEQUENCES]
     U.collect(rep, results, key_fn=finding_key,
-              replay_fn=lambda r: REPLAY % {"root": common.ROOT, "spec": r["spec"], "vals": r["cex"]["values"]},
+              replay_fn=lambda r: (REPLAY_SEQ % {"root": common.ROOT, "name": r["spec"][1]}) if r["spec"][0] == "seq" else
+              REPLAY % {"root": common.ROOT, "spec": r["spec"], "vals": r["cex"]["values"]},
               sample_fn=lambda r: {"case": r["text"][:500], "paths": r["paths"], "reference_cases": r.get("refcases")})
     return rep.finish()
 
